@@ -250,6 +250,28 @@ def run(ctx):
         b1, b2 = mk([x, y]), mk([x + sep + y])
         w = {"c": rng.choice(["All", "Any"]), "args": [{"c": "Any", "args": [b1, {"c": "str", "id": "p"}]}, {"c": "Imply", "cond": {"c": "str", "id": "q"}, "cons": b2}]}
         do_case(ctx, {"ast": w, "stream": "adversarial", "mut": "child-lists-that-read-alike"})
+    for _ in range((50 if ctx.quick else 300) * (3 if ctx.search else 1)):
+        # the negation of "at least one of: a group of atoms, a named rule, the same atoms on their own": pushed inwards it
+        # holds the negated group twice (once as the negated child, once as the grouped atoms), the named rule's negation
+        # BETWEEN the two in the child list (children after negate() are in the order of the ids before it)
+        lf = lambda n_: {"c": "str", "id": n_}
+        nm = rng.sample("abcdpqxy", 4)
+        atoms = nm[:rng.randint(1, 2)]
+        dup = {"c": "Any", "args": [lf(x) for x in atoms]}
+        named = {"c": rng.choice(["Any", "All"]), "args": [lf(nm[2]), lf(nm[3])], "id": rng.choice(["Z", "Zz", "W1", "B", "a0"])}
+        kids = [dup, named] + [lf(x) for x in atoms]
+        rng.shuffle(kids)
+        top = {"c": "Any", "args": kids}
+        if rng.random() < 0.7: top["id"] = "A"
+        via = rng.choice(["negate", "Not", "Imply", "ImplyCons"])
+        do_case(ctx, {"ast": {"c": "$derive", "via": via, "arg": top, "other": "zq"}, "stream": "derived", "mut": "negation-lists-a-child-twice"})
+    for _ in range((80 if ctx.quick else 500) * (3 if ctx.search else 1)):
+        # models that are outputs of other operations, taken as they come (validated or not)
+        try:
+            a, o, t = gen_derived(rng, ctx.quick, validate=False, empty_p=0.04)
+        except RuntimeError:
+            break
+        do_case(ctx, {"ast": a, "stream": "derived", "mut": "via-" + a["via"]})
     n = (450 if ctx.quick else 3000) * (3 if ctx.search else 1)
     for _ in range(n):
         a, o, t = gen_valid(rng, ctx.quick, empty_p=0.04)
